@@ -686,10 +686,12 @@ fn do_op<W: BitArray>(st: &mut St<W>, seg: &[&str]) -> Option<String> {
 fn run_hist<W: BitArray>(is_stack: bool, segs: &[Vec<&str>]) -> String {
     let mut st: St<W> = match segs[1].as_slice() {
         ["new"] => {
+            // `new()` and `Default::default()` must be the same coder (alternate by line length)
+            let dflt = segs.iter().map(|x| x.len()).sum::<usize>() % 2 == 1;
             if is_stack {
-                St::Stack(StackCoder::new())
+                St::Stack(if dflt { Default::default() } else { StackCoder::new() })
             } else {
-                St::QEnc(QueueEncoder::new())
+                St::QEnc(if dflt { Default::default() } else { QueueEncoder::new() })
             }
         }
         ["cap", n] => {
